@@ -63,24 +63,30 @@ def match_stack(ms, es):
 
 
 def match_multiset(ms, es, f):
-    """Bipartite matching; sizes are small.  Greedy first, then backtracking."""
-    if len(ms) != len(es):
+    """Is there a perfect matching between MS and ES under the compatibility predicate F?
+    Augmenting paths (Kuhn): O(n^3) calls of F at worst -- a backtracking search is exponential
+    exactly when the answer is no, i.e. on the broken trees this is meant to diagnose."""
+    n = len(ms)
+    if n != len(es):
         return False
     es = list(es)
-    used = [False] * len(es)
+    adj = [[j for j in range(n) if f(ms[i], es[j])] for i in range(n)]
+    owner = [-1] * n           # es index -> ms index
 
-    def rec(i):
-        if i == len(ms):
-            return True
-        for j in range(len(es)):
-            if not used[j] and f(ms[i], es[j]):
-                used[j] = True
-                if rec(i + 1):
-                    return True
-                used[j] = False
+    def augment(i, seen):
+        for j in adj[i]:
+            if j in seen:
+                continue
+            seen.add(j)
+            if owner[j] < 0 or augment(owner[j], seen):
+                owner[j] = i
+                return True
         return False
-    # Fast path: exact-key multiset equality when no don't-cares are involved.
-    return rec(0)
+
+    for i in range(n):
+        if not adj[i] or not augment(i, set()):
+            return False
+    return True
 
 
 def strip_pos(v):
@@ -109,7 +115,7 @@ def compare_results(model_stacks, ordered, engine_stacks):
     if a != b:
         return "result multisets differ: only model %r, only engine %r" % (
             list((a - b).elements())[:3], list((b - a).elements())[:3])
-    if len(model_stacks) <= 60 and not match_multiset(model_stacks, engine_stacks, match_stack):
+    if len(model_stacks) <= 200 and not match_multiset(model_stacks, engine_stacks, match_stack):
         return "result multisets differ in positions"
     return None
 
